@@ -383,6 +383,9 @@ Definition entry (s : vset) (n : name) (i : nat) : option var :=
        Local | Global with -g), assign if a value is given (on a read-only
        error the attributes are skipped and the shell goes on), then
        make_read_only / export;
+     - read (yash-builtin/src/read/assigning.rs, a mandatory = non-special
+       built-in): get_or_create(name, Global) and assign; a read-only error
+       only makes the built-in fail;
      - export, readonly (special): the same with Scope::Global; errors are fatal;
      - unset (special): unset(name, Scope::Global); errors are fatal;
      - set -- ... : replaces the positional parameters. *)
@@ -399,7 +402,11 @@ Inductive cmd :=
 | CReadonly (n : name) (v : option value)              (* readonly n[=v] *)
 | CUnset (n : name)                                    (* unset n *)
 | CSetParams (ps : list str)                           (* set -- ps *)
-| CExec (temps : list (name * value)).                 (* [a=v] /bin/prog   : an external utility *)
+| CExec (temps : list (name * value))                  (* [a=v] /bin/prog   : an external utility *)
+| CRead (temps : list (name * value)) (n : name) (line : str).
+                                                       (* [a=v] read n <<E  : a regular built-in that
+                                                          assigns n with Scope::Global; a read-only
+                                                          error only makes it fail *)
 
 Inductive errmode :=
 | EIgnore         (* no error possible / the command goes on *)
@@ -447,6 +454,9 @@ Fixpoint compile (c : cmd) : list instr :=
   | CReadonly n v => [IOp (OGetOrNew n SGlobal (opt_assign v ++ [MReadOnly 0%N])) EFatal]
   | CUnset n => [IOp (OUnset n SGlobal) EFatal]
   | CSetParams ps => [IOp (OSetParams ps) EIgnore]
+  | CRead temps n line =>
+      IOp (OPush CVolatile) EIgnore :: temp_volatile temps
+      ++ [IOp (OGetOrNew n SGlobal [MAssign (Scalar line) (Some 0%N)]) EIgnore; IOp OPop EIgnore]
   end.
 
 Definition compile_script (cs : list cmd) : list instr := flat_map compile cs.
